@@ -8,7 +8,6 @@ NA = {
  "C03": "Key-switch/automorphism/trace/packing correctness is 'decrypts to the expected image within a noise bound': gadget arithmetic and Galois exponent arithmetic over run-time values; no sound static argument in reach.",
  "C04": "External product / CMux selects m1*m2 within noise: polynomial arithmetic and noise magnitudes, run-time numeric facts.",
  "C14": "Blind rotation returns the table entry at the mod-switched index: index/drift/sign arithmetic and homomorphic noise.",
- "C15": "End-to-end encrypted integer pipeline (bootstrap, re-preparation, noise growth); its table-function and operation-to-table binding clause is decided under C13, its threading clause under C20.",
 }
 
 # id -> (level category, level text, design_ref, level_note, technique, has_thorough)
@@ -19,6 +18,11 @@ CLAIMS = {
          "Trusted: rustc front end, fact emitter, the ROBDD package (self-checked each run), 10 reference word functions; assumes cmux selects hi on bit=1 (C04) and the thread partition maps bit i to circuit i (checked under C20).",
          "abstract interpretation of constant tables over ROBDDs + MIR pattern match of the evaluator", True),
 
+ "C15": ("other",
+         "Only the bit placement and the table / thread bindings of C15 are decided. UnsignedInteger::bit_index - the map from logical bit i to the coefficient of the packed GLWE - is shown, for every implementing word type (u8 .. u128), to be a permutation of [0, BITS) that places bit t of byte b at b + t * 2^LOG_BYTES (the stride the byte-isolating trace and the byte rotations rely on), by interpreting the MIR of the straight-line integer function on all BITS inputs with the associated constants of each impl (an exhaustive evaluation of a constant table, as for C13); the associated constants are consistent with BITS (BIT-2); every shipped u32 circuit computes its word function for all 2^64 inputs and each word operation is bound to its table (BDD-0..5, the C13 proof, shared); the multi-threaded evaluators and the partial-preparation windows address every bit exactly once (THR-4 / THR-6 / THR-7, shared with C20). Bootstrapping, noise growth, key-switching, trace / packing and the homomorphic pipeline are not decided.",
+         "DESIGN.md §8 (C15)",
+         "Trusted: cmux / circuit bootstrapping / trace compute what C04 / C14 / C03 state. Thin, clause-scoped claim.",
+         "exhaustive interpretation of a constant index map from MIR + shared ROBDD proof + partition identities", True),
  "C20": ("other",
          "Structural non-interference argument: no shared mutable state anywhere in the library crates (statics, interior mutability, atomics/locks/thread_local), backend handle only read through Module::ptr, no unsafe in the threaded crate, and at both thread::scope sites the partition is exact (chunk = ceil(items/threads) of the very slice chunked, same `threads` for the scratch windows, global index = base + thread*chunk + local, decided as polynomial identities over MIR); single-thread variants forward with threads = 1; window parameters (<x>_start / _end / _count) keep their role across forwarding calls (THR-6); a chunk length items.div_ceil(threads) is floored at 1 or the empty case is decided before (THR-7). Decides the scheduling/partition clauses for every thread count at once; does not execute anything, so bit-equality of the per-item computation relies on C11/C12 clauses.",
          "DESIGN.md §3 C20",
